@@ -4,7 +4,7 @@ sys.path.insert(0, os.path.join(os.path.dirname(os.path.abspath(__file__)), ".."
 import vlib
 
 KINDS = {"write": "KWrite", "writeap": "KWriteAp", "sync": "KSync", "unmap": "KUnmap", "read": "KRead",
-         "snap": "KSnap", "setcp": "KSetCp", "chain": "KChain", "rev": "KRev", "setmodewo": "KSetModeWO",
+         "snap": "KSnap", "setcp": "KSetCp", "chain": "KChain", "rev": "KRev", "revneg": "KRev", "setmodewo": "KSetModeWO",
          "setmoderw": "KSetModeRW", "setrev": "KSetRev", "resize": "KResize", "create": "KCreate",
          "size": "KSize", "clone": "KClone", "http": "KHttp", "signal": "KSignal", "alive": "KAlive",
          "feresize": "KFeResize"}
